@@ -505,3 +505,20 @@ def serialise_lines(market):
 
 def file_path(market):
     return "/sim/%s" % market["id"]
+
+
+def image_line(market, j):
+    """Full image of update j (what a fresh subscription receives)."""
+    upd = market["updates"][j]
+    rc = []
+    for s in market["runners"]:
+        cur = upd["r"][str(s)]
+        ch = {"id": s, "atb": cur["atb"], "atl": cur["atl"], "trd": cur["trd"], "tv": r2(sum(c for _, c in cur["trd"]))}
+        if cur["ltp"] is not None:
+            ch["ltp"] = cur["ltp"]
+        for k in ("atb", "atl", "trd"):
+            if not ch[k]:
+                del ch[k]
+        rc.append(ch)
+    mc = {"id": market["id"], "img": True, "marketDefinition": market_definition(market, upd), "rc": rc}
+    return json.dumps({"op": "mcm", "clk": "c%d" % j, "pt": upd["pt"], "mc": [mc]})
